@@ -382,3 +382,50 @@ def replay_case(pp, case, monitors):
     for m in monitors:
         vs.extend(m(ctx, world, act, obs, post) or ())
     return vs
+
+
+# ---- the same action performed as a single recipe step ------------------------------------------------------------
+def apply_via_recipe(pp, subs, world, act):
+    """Declare the objects the action mentions, add the action as one recipe step, bake.
+    obs['new'] holds the baked objects under their names (all declared + created ones)."""
+    op = act['op']
+    try:
+        r = pp.Recipe()
+        used = []
+
+        def use(name):
+            if name in world and name not in used:
+                r.uses(world[name])
+                used.append(name)
+
+        def rref(x):
+            use(refname(x))
+            return resolve(world, x)
+        if op == 'transfer':
+            r.transfer(rref(act['src']), rref(act['dst']), act['q'])
+        elif op == 'remove':
+            what = CLASSES[act['what']] if act['what'] in CLASSES else subs[act['what']]
+            r.remove(rref(act['obj']), what)
+        elif op == 'fill_to':
+            r.fill_to(rref(act['obj']), subs[act['solvent']], act['q'])
+        elif op == 'dilute':
+            r.dilute(rref(act['obj']), subs[act['solute']], act['conc'], subs[act['solvent']])
+        elif op == 'create_solution':
+            solvent = rref(act['solvent']) if act['solvent'] in world else subs[act['solvent']]
+            solute = [subs[x] for x in act['solute']] if isinstance(act['solute'], list) else subs[act['solute']]
+            r.create_solution(solute, solvent, act['name'], **act['kw'])
+        elif op == 'create_solution_from':
+            if act['solvent'] in world:
+                raise env.InternalError("recipe create_solution_from takes a substance solvent only")
+            r.create_solution_from(rref(act['src']), subs[act['solute']], act['conc'], subs[act['solvent']], act['q'],
+                                   act['name'])
+        elif op == 'new_container':
+            r.create_container(act['name'], act['max'], [(subs[x], q) for x, q in act['contents']] or None)
+        else:
+            raise env.InternalError(f"no recipe form for {op}")
+        res = r.bake()
+    except env.InternalError:
+        raise
+    except Exception as e:  # noqa
+        return {'ok': False, 'exc': e, 'new': {}, 'ret': None}
+    return {'ok': True, 'exc': None, 'new': dict(res), 'ret': res, 'recipe': r}
